@@ -429,6 +429,31 @@ fn structure_aware(item: &Item, table: &Table, decs: &[Dec], thorough: bool, acc
             }
         }
     }
+    // a date or time that does not exist is a number that does not fit its field: an error, never
+    // a made-up value
+    if edits.iter().any(|(w, _)| w.starts_with("date of") || w.starts_with("time of")) {
+        if let Some(real) = crate::real::registry().into_iter().find(|r| r.key == ty.key) {
+            for (what, e) in edits.iter().filter(|(w, _)| w.starts_with("date of") || w.starts_with("time of")) {
+                let mut t = nodes.clone();
+                e(&mut t);
+                let Some(input) = render(ty, &t) else { continue };
+                if !matches!(codec.decode(ty, &input), Err(RefErr::Malformed(m)) if m == "calendar") {
+                    continue;
+                }
+                acc.count("cases", 1);
+                acc.count("calendar_cases", 1);
+                match guarded(|| (real.decode)(&input)) {
+                    Ok(Err(_)) => acc.count("calendar_rejected", 1),
+                    Err(_) => {} // a panic is reported by the sweep below
+                    Ok(Ok((dbg, _, _))) => acc.violation(viol(
+                        format!("c02/{}/calendar/{}", ty.key, hex_short(&input)),
+                        format!("decoder {} on {} ({}: {what}): the date/time does not exist, expected an error, got {dbg}", ty.key, hex_short(&input), item.label),
+                        input.len() as u64,
+                    )),
+                }
+            }
+        }
+    }
     for (k, &di) in item.decs.iter().enumerate() {
         if !thorough && k >= 2 {
             break;
@@ -525,7 +550,7 @@ pub fn run(run: &RunInfo) -> Summary {
         transitions: cases,
         traces_validated: cases,
         distinct_nontrivial: acc.get("short_ok") + acc.get("substitution_still_ok") + acc.get("structure_edit_still_ok"),
-        rule: format!("55 struct decoders + 17 reply parsers: every body of length 0..={maxlen} under a correct header; corpus of {} packets (captured blobs, baseline / all-present / sized values of every type): every truncation (raw and with the APDU length patched), every single-byte substitution (255 values at every offset; quick tier: 20 boundary values for packets longer than 300 bytes, and two decoders per packet), structure-aware edits enumerated completely (length prefixes set to boundary forms with and without patching enclosing lengths, BCD fields widened to 1..11 bytes of 99/FF and set to every spelling of max-12..max+60 of their integer type and to MAX/10 followed by every pad byte, calendar fields over months 00..19 x days 00..39 and 00..99 for h/m/s, tags replaced by 1F/FF/sibling tags{}). Oracle: Ok or Err, no panic (overflow checks on), remainder is a suffix of the input, peak live allocation of a call <= 1024 x input + 64 KiB, no call longer than 20 s. distinct_nontrivial = mutated inputs that still decoded to a value", items.len(), if thorough { "; pairs of edits" } else { "" }),
+        rule: format!("55 struct decoders + 17 reply parsers: every body of length 0..={maxlen} under a correct header; corpus of {} packets (captured blobs, baseline / all-present / sized values of every type): every truncation (raw and with the APDU length patched), every single-byte substitution (255 values at every offset; quick tier: 20 boundary values for packets longer than 300 bytes, and two decoders per packet), structure-aware edits enumerated completely (length prefixes set to boundary forms with and without patching enclosing lengths, BCD fields widened to 1..11 bytes of 99/FF and set to every spelling of max-12..max+60 of their integer type and to MAX/10 followed by every pad byte, calendar fields over months 00..19 x days 00..39 and 00..99 for h/m/s, tags replaced by 1F/FF/sibling tags{}). Oracle: Ok or Err, no panic (overflow checks on), an error for dates and times that do not exist, remainder is a suffix of the input, peak live allocation of a call <= 1024 x input + 64 KiB, no call longer than 20 s. distinct_nontrivial = mutated inputs that still decoded to a value", items.len(), if thorough { "; pairs of edits" } else { "" }),
         exhaustive: true,
         required_witnesses: vec!["short bodies decoded".into(), "short bodies rejected".into(), "substituted packets still decoded".into(), "structure-aware edits still decoded".into()],
         assumptions: vec![
